@@ -100,7 +100,7 @@ def _suppress_comments(rng, text):
 
 def make_cases(ctx):
     from ..gen import progen
-    n = ctx.n(90, 6000)
+    n = ctx.n(150, 6000)
     cfgfiles = mutate.cfg_test_files()
     samples = mutate.sample_files()
     libfiles = sorted(os.path.join(build.REPO, 'lib', f) for f in os.listdir(os.path.join(build.REPO, 'lib'))
@@ -176,14 +176,6 @@ def known_cases():
     return out
 
 
-def xml_culprit(context):
-    """element.attribute the parse error position falls into, from the offending line"""
-    m = re.search(r'<([\w-]+)\s', context or '')
-    el = m.group(1) if m else '?'
-    attrs = re.findall(r'([\w-]+)="', context or '')
-    return '%s.%s' % (el, attrs[-1] if attrs else '?')
-
-
 def one(ctx, case):
     d = ctx.tmpdir()
     for f, data in case.files.items():
@@ -228,7 +220,7 @@ def one(ctx, case):
         seen = set()
         for inv, det, cfg in out['violations']:
             if inv == 'xml-wellformed':
-                key = 'dump:xml-wellformed:' + xml_culprit(out.get('xml_context'))
+                key = 'dump:xml-wellformed:' + (out.get('xml_culprit') or '?')
                 det = '%s; offending text: %s' % (det, out.get('xml_context'))
             else:
                 key = 'dump:%s:%s' % (inv, digest)
